@@ -271,7 +271,7 @@ pub fn run(args: &Args) -> i32 {
             rounds += o.world.publishes.len() as u64;
             for (k, d) in wire_judge(t, &o) {
                 let key = format!("{k}@{}", t.cell.name().split('/').take(2).collect::<Vec<_>>().join("/"));
-                let e = local.entry(key.clone()).or_insert(Finding { key, detail: format!("[{} {} choices={:?}] {d}", t.cell.name(), t.topo, ch.choices), replay: crate::c01::replay_json("C08w", t, &ch.choices), weight: (ch.deviations(), ch.choices.len()), count: 0 });
+                let e = local.entry(key.clone()).or_insert_with(|| Finding { key, detail: format!("[{} {} choices={:?}] {d}", t.cell.name(), t.topo, ch.choices), replay: crate::c01::replay_json("C08w", t, &ch.choices), weight: (ch.deviations(), ch.choices.len()), count: 0 });
                 e.count += 1;
             }
             local.len() < 20
